@@ -210,7 +210,13 @@ func c14OneNode(t *rapid.T, st *Store, ls *ipld.LinkSystem, ev *Evid) *c14Kept {
 					u.HashType = nil
 				default:
 					u.HasData, u.Data = true, make([]byte, *u.Fanout/8+uint64(rapid.IntRange(1, 4).Draw(t, "over")))
-					u.Data[0] = 1
+					// (too long whatever the surplus bytes hold: set bits in front, at the end, or none at all)
+					switch rapid.IntRange(0, 2).Draw(t, "overlongFill") {
+					case 0:
+						u.Data[0] = 1
+					case 1:
+						u.Data[len(u.Data)-1] = 0x81
+					}
 				}
 			}
 			valid = c14ValidShard(u)
